@@ -1,5 +1,6 @@
 """C05 - revoked state is never used and state is never revoked early (structural part)."""
 from engine import *
+import linforms
 import provenance
 import guards
 import arith
@@ -226,6 +227,29 @@ def r05g(F):
 		e = ex.of_rvalue(st[2])
 		ok = e[0] == 'const' and e[1] == 1
 		out.append(Result('05.g', ok, ('ok:' if ok else 'shape:') + 'lockdown-value', 'lockdown_from_offchain = %s (expected true)' % expr_str(e), 1, where=F.where(fn, st[0])))
+	# holder_tx_signed is only ever SET (the constant true), never computed from the channel type or cleared: once the holder commitment was signed /
+	# handed to the broadcaster, no_further_updates_allowed() must hold for every channel type, or a later update gets the handed-out commitment revoked
+	nw = 0
+	for wfn in (MON + 'queue_latest_holder_commitment_txn_for_broadcast', MON + 'generate_claimable_outpoints_and_watch_outputs',
+			MON + 'check_spend_holder_transaction', MON + 'get_latest_holder_commitment_txn', MON + 'maybe_get_latest_holder_commitment_txn', MON + 'cancel_prev_commitment_claims'):
+		if not F.has_fn(wfn):
+			continue
+		for nm in F.family(wfn):
+			wfu = F.func(nm)
+			wex = Expr(wfu)
+			for b, si in sites_field_write(wfu, 'holder_tx_signed'):
+				st = wfu.blocks[b]['s'][si]
+				e = wex.of_rvalue(st[2])
+				okw = e[0] == 'const' and e[1] == 1
+				nw += 1
+				out.append(Result('05.g', okw, ('ok:' if okw else 'shape:') + 'holder-tx-signed-value@%s' % wfn.rsplit('::', 1)[-1], '%s sets holder_tx_signed = %s (expected the constant true for every channel type)' % (wfn.rsplit('::', 1)[-1], expr_str(e)[:120]), 1, where=F.where(nm, st[0])))
+	if nw < 1:
+		out.append(Result('05.g', False, 'floor:holder-tx-signed-writes', 'no write of holder_tx_signed found in the monitor\'s broadcast routines'))
+	# ... and generate_claimable_outpoints_and_watch_outputs (the funnel of every monitor-initiated broadcast) sets it on every path to its return
+	gfu = F.func(MON + 'generate_claimable_outpoints_and_watch_outputs')
+	gw = {b for b, si in sites_field_write(gfu, 'holder_tx_signed')}
+	rets = [bi for bi in range(len(gfu.blocks)) if gfu.term(bi)[1] == 'ret']
+	out += P5_must_pass(F, '05.g', gfu, [0], rets, gw, 'holder_tx_signed = true on every path of generate_claimable_outpoints_and_watch_outputs', key='holder-tx-signed-unconditional')
 	# lockdown is set before the holder commitment is queued for broadcast
 	lw = {b for b, s in sites_field_write(fu, 'lockdown_from_offchain')}
 	q = sites_call(fu, ['queue_latest_holder_commitment_txn_for_broadcast', 'maybe_broadcast_latest_holder_commitment_txn'])
@@ -472,3 +496,4 @@ RULES.append(('05.G', 'guard census: no reviewed call of a workspace function an
 RULES.append(('05.W', 'field assignments: every reviewed (function, Type.field) direct assignment is still made - state that a path no longer updates, or updates only conditionally (get_or_insert for an overwrite); generalises NN.R (rules/writes.py)', lambda F: writes.for_property(F, 'C05', '05.W')))
 RULES.append(('05.X', 'error propagation: once a branch has found a Result of the function\'s own error type to be Err, no path returns Ok(..) or an unrelated value - a failed monitor write is not reported as Completed: the revocation of the old state would be released although the new state is not durable (value-refined walk, rules/errprop.py)', lambda F: errprop.rule(F, '05.X', r'util/persist\.rs$|chain/chainmonitor\.rs$', 3, exceptions={'list_paginated_with_values': 'a key removed between listing and reading is not part of the page (NotFound only; every other error is returned)', 'list': 'a directory entry that vanished between read_dir and the check is skipped / included by design', 'list_paginated_impl': 'same tolerance as list for entries deleted during the scan'})))
 RULES.append(('05.N', 'arithmetic census: per reviewed function the set of operation kinds (group: add/sub, mul, div, rem, shift, bit, min, max, div_ceil ...; flavour: plain / checked / saturating / wrapping) keeps its kinds: no reviewed function lost or gained a kind of arithmetic altogether - a rounding direction (`/` for div_ceil), saturating for checked, min for max (rules/arith.py; counts and value arithmetic itself are not judged)', lambda F: arith.for_property(F, 'C05', '05.N')))
+RULES.append(('05.K', 'constant census of linear forms: every comparison (normalised to sum >= K over name-free atoms, a comparison and its negation being one form) and every maximal arithmetic expression of a reviewed function keeps its coefficients and its constant - a dropped or added `+ 1` / `- 1`, `<` for `<=` inside a computed bound, a scale factor applied twice or not at all, swapped operands of a comparison (rules/linforms.py; shapes that appear or disappear are not judged, the guard / arithmetic censuses judge those)', lambda F: linforms.for_property(F, 'C05', '05.K')))
